@@ -205,6 +205,11 @@ func init() {
 			if c.Shard == 0 {
 				jobs.RunBFS(c)
 			}
+			if c.Quick() {
+				jobs.RunExhaustive(c, 4, 7)
+			} else {
+				jobs.RunExhaustive(c, 4, 9)
+			}
 			sched.RunAllByScenario(c, scenarios(c.Quick()), 2)
 		},
 		Replay: func(c *vlib.Ctx, w string) {
